@@ -4,6 +4,7 @@ import (
 	"bufio"
 	"encoding/json"
 	"fmt"
+	"golang.org/x/tools/go/ssa"
 	"os"
 	"path/filepath"
 	"regexp"
@@ -22,18 +23,19 @@ type Obligation struct {
 }
 
 type Report struct {
-	Prop    string
-	Obls    []Obligation
-	seen    map[string]int
-	Sites   int // program points examined (evaluations)
-	Funcs   map[string]bool
-	Extra   map[string]any
-	Assume  []string
-	Explain string
+	Prop         string
+	Obls         []Obligation
+	seen         map[string]int
+	Sites        int // program points examined (evaluations)
+	Funcs        map[string]bool
+	Extra        map[string]any
+	Assume       []string
+	Explain      string
+	PanicAudited map[*ssa.Function]bool // functions whose panic sites were already audited in this report
 }
 
 func NewReport(prop string) *Report {
-	return &Report{Prop: prop, seen: map[string]int{}, Funcs: map[string]bool{}, Extra: map[string]any{}}
+	return &Report{Prop: prop, seen: map[string]int{}, Funcs: map[string]bool{}, Extra: map[string]any{}, PanicAudited: map[*ssa.Function]bool{}}
 }
 
 func (r *Report) add(o Obligation) {
